@@ -205,6 +205,40 @@ def run(rep, programs):
         rep.check(good, rule2, "main|alloc-record", "records (frame returned by get, event order)", "alloc record is (%s, %s)" % (T.show(a[0])[:80], T.show(a[1])[:80]), wa[0][1]["span"])
     else:
         rep.violation(rule2, "main|alloc-branch", "expected one get and one Allocation::with", b.span)
+    # an allocation event allocates, a free event frees: get is controlled by entry.alloc == true, put by false
+    def alloc_pol(bi):
+        for s_, d_ in lib.controlling_edges(b, bi):
+            c = tm.operand(b.term(s_)["discr"])
+            if is_event_field(c, "alloc"):
+                return lib.bool_edge_polarity(b, s_, d_)
+        return None
+    if len(gets) == 1:
+        rep.check(alloc_pol(gets[0][0]) is True and alloc_pol(pb) is False, rule2, "main|event-kind",
+                  "get on entry.alloc, put otherwise", "allocation and free events are not dispatched by entry.alloc (get under %s, put under %s)" % (
+                      alloc_pol(gets[0][0]), alloc_pol(pb)), gets[0][1]["span"])
+    # the replayed allocator starts entirely free
+    news = [(bi, t) for bi, t in b.calls() if (callee_name(t["callee"]) or "").endswith("as llfree::Alloc>::new")]
+    init_ok = False
+    for bi, t in news:
+        for a in t["args"]:
+            ta = tm.operand(a)
+            for x in T.walk(ta):
+                if (x[0] == "agg" and x[1].startswith("adt:llfree::Init::FreeAll")) or (x[0] == "c" and x[2] and str(x[2]).endswith("Init::FreeAll")):
+                    init_ok = True
+    if news:
+        free_all = None
+        ia = prog.crate("llfree").adts.get("llfree::Init")
+        if ia:
+            free_all = [v["discr"] for v in ia["variants"] if v["name"] == "FreeAll"][0]
+        for bi, t in news:
+            for a in t["args"]:
+                ta = tm.operand(a)
+                if ta[0] == "c" and free_all is not None and ta[1] == free_all and (ta[2] is None or "Init" in str(ta[2])):
+                    init_ok = True
+                if ta[0] == "agg" and "Init" in ta[1]:
+                    init_ok = init_ok or ta[1].endswith("FreeAll|enum") or "FreeAll" in ta[1]
+        rep.check(init_ok, rule, "main|init-free-all", "the allocator is created with Init::FreeAll",
+                  "the replayed allocator is not created entirely free", news[0][1]["span"])
     # the record created for an allocation is present and carries the given frame and order
     aw = prog.body("replay::Allocation::with")
     if aw is not None:
